@@ -27,7 +27,7 @@ RULE = ("corpus (F7 witness, hand-written edge cases) first; then random cases: 
         "(..40x40 thorough, skewed to 1xN/Nx1/2x2/3x3) x images {constant, 4-level quantised, dyadic, random, "
         "blocky tenths (inexact sums, the F7 class), integer (exact stream)} x seeds {none, one, adjacent different, "
         "sparse, dense, outside the mask} x masks {full, random, split by an unmasked wall} x weights "
-        "{0, 2^-10, 1, 1000, random}; one case whose initial queue exceeds 1000 rows so the first push reallocates; "
+        "{0, 2^-10, 1, 1000, random} x array layouts {C, Fortran, strided views, int32/uint8 dtypes}; one case whose initial queue exceeds 1000 rows so the first push reallocates; "
         "non-trivial = at least one non-seed pixel is reached and (two different seed labels are present or >= 5 "
         "pixels are reached); distinct by hash of the case")
 TRUSTED = [
@@ -85,6 +85,17 @@ def impl(case):
     image = bits_arr(case["image"]).reshape(case["m"], case["n"])
     labels = np.array(case["labels"], dtype=int).reshape(case["m"], case["n"])
     mask = np.array(case["mask"], dtype=bool).reshape(case["m"], case["n"])
+    lay = case.get("layout", "C")
+    if lay == "F":                       # Fortran-ordered inputs
+        image, labels, mask = np.asfortranarray(image), np.asfortranarray(labels), np.asfortranarray(mask)
+    elif lay == "strided":               # non-contiguous views into larger arrays
+        def view(a):
+            big = np.zeros((a.shape[0] * 2 + 1, a.shape[1] * 3 + 2), a.dtype)
+            big[1::2, 2::3][:a.shape[0], :a.shape[1]] = a
+            return big[1::2, 2::3][:a.shape[0], :a.shape[1]]
+        image, labels, mask = view(image), view(labels), view(mask)
+    elif lay == "dtypes":                # int32 labels, uint8 0/1 mask
+        labels, mask = labels.astype(np.int32), mask.astype(np.uint8)
     image0, labels0, mask0 = image.copy(), labels.copy(), mask.copy()
     lo, d = propagate(image, labels, mask, b2f(case["weight"]))
     ok_in = bool(np.array_equal(image0.view(np.uint64), image.view(np.uint64))
@@ -437,7 +448,9 @@ def _random_case(rng, mx, force=None):
         ik = force.get("image", ik); w = force.get("weight", w); lk = force.get("labels", lk); mk = force.get("mask", mk)
     lab = _labels(rng, m, n, lk)
     msk = _mask(rng, m, n, mk)
-    return mk_case(_image(rng, m, n, ik), lab, msk, w, "%s/%s/%s/w%s" % (ik, lk, mk, "0" if w == 0 else "+"))
+    c = mk_case(_image(rng, m, n, ik), lab, msk, w, "%s/%s/%s/w%s" % (ik, lk, mk, "0" if w == 0 else "+"))
+    c["layout"] = str(rng.choice(["C", "C", "C", "F", "strided", "dtypes"]))
+    return c
 
 
 def _grow_case(rng=None):
@@ -504,6 +517,7 @@ def generate(ctx):
         lab = np.zeros((m, n), int); lab[30, 30] = 1; lab[5, 50] = 2
         cases.append(mk_case(rng.rand(m, n), lab, np.ones((m, n), bool), 0.01, "queue>1000"))
     for c in cases:
+        ctx.count("layout:" + c.get("layout", "C"))
         ctx.count(c["cls"].split("/")[0] if not c["cls"].startswith(("edge", "corpus")) else "corpus")
         ctx.count("shape:%s" % ("1x1" if c["m"] * c["n"] == 1 else "line" if min(c["m"], c["n"]) == 1 else
                                 "<=5" if max(c["m"], c["n"]) <= 5 else "<=10" if max(c["m"], c["n"]) <= 10 else ">10"))
@@ -524,6 +538,7 @@ def shrink_candidates(case):
 
     def sub(rows, cols):
         return {"m": len(rows), "n": len(cols), "weight": case["weight"], "cls": case["cls"],
+                "layout": case.get("layout", "C"),
                 "image": [[case["image"][i][j] for j in cols] for i in rows],
                 "labels": [[case["labels"][i][j] for j in cols] for i in rows],
                 "mask": [[case["mask"][i][j] for j in cols] for i in rows]}
